@@ -245,7 +245,11 @@ func (vc *VC) freshIface(T types.Type, name string, st *State) Val {
 		return vc.freshTerm(name, SErr)
 	}
 	vc.declareSort("Iface")
-	return SymIface{T: vc.freshTerm(name, OpaqueSort("Iface")), Type: T}
+	si := SymIface{T: vc.freshTerm(name, OpaqueSort("Iface")), Type: T}
+	if hasSetMethod(T) && !vc.mode.IntMath {
+		vc.ghostImgCell(st, si, true)
+	}
+	return si
 }
 
 var streamDyn types.Type
@@ -750,6 +754,11 @@ func (vc *VC) doPanicOutcome(ps *State) []Outcome {
 // symIfaceMethod: methods of a symbolic interface value are pure uninterpreted functions
 // of the value's identity and arguments.
 func (vc *VC) symIfaceMethod(fr *Frame, st *State, r SymIface, m *types.Func, args []Val, pos token.Pos) []Outcome {
+	if m.Name() == "Set" && len(args) == 3 && hasSetMethod(r.Type) {
+		vc.assume("A-IMG")
+		vc.ghostSet(st, r, args)
+		return one(st)
+	}
 	sig := m.Type().(*types.Signature)
 	full := m.FullName()
 	rets := vc.symMethodResults(st, r, full, sig, args)
